@@ -72,8 +72,8 @@ CLAIMED = {
    note="Sequences of <=3 (4) operations; Go's builtin map is modelled as an association list with symbolic key equality. The interval tree (draws from global math/rand, no native replay), 'few thousand operations' and key types other than integers are outside.",
    design="3 C51"),
  "C37": dict(
-   text="Lexer kernel: the real lexer.Lex and the whole token stream (Next() to EOF) on every byte string of <=2 (thorough 3) bytes - all byte values incl. invalid UTF-8 - alone and - with <=2 free bytes - after fixed prefixes that put the lexer into its modes (string, string template, block comment, after a leading 0; thorough: line comment, fraction, arrow), plus every 3 (4) bytes >= 0x80 alone / in a line comment / string / block comment: no crash and no internal error, every token and the EOF position inside the input, tokens contiguous in order and covering the input (unless lexing stopped at an error token), lines match offsets, columns match offsets in one convention (bytes or characters) for the whole stream; and a pooled lexer that lexed another text before (6 texts leaving mode/bracket/position state behind) yields exactly the tokens of a fresh lexer.",
-   note="Part of C37: the lexer only; parser and checker totality/positions are outside (a symbolic AST is out of reach). Bounds: <=2 (3) free bytes per harness, prefixes listed in harness/C37/lexer.go; sync.Pool modelled as 'Get returns the last Put object, else New()'; unicode/utf8.DecodeRune runs from source. Two known findings (unterminated block comment content in no token; column drift after an empty string token), three defects fixed.",
+   text="Lexer kernel: the real lexer.Lex and the whole token stream (Next() to EOF) on every byte string - all byte values incl. invalid UTF-8 - of <=2 (thorough 3) bytes alone, and after fixed prefixes that put the lexer into its modes with <=2 free bytes (string template, after a leading 0; thorough also after a fraction point and an arrow), <=3 (4) free bytes (string, line comment) or <=4 (5) free bytes (block comment), plus every 3..5 (6) bytes >= 0x80 alone / in a line comment / string / block comment: no crash and no internal error, every token and the EOF position inside the input, tokens contiguous in order and covering the input (unless lexing stopped at an error token), lines match offsets, columns match offsets in one convention (bytes or characters) for the whole stream; and a pooled lexer that lexed another text before (6 texts leaving mode, bracket count, position, cursor and tokens behind) yields, for an optional template opener plus 2 free bytes, exactly the tokens of a fresh lexer.",
+   note="Part of C37: the lexer only; parser and checker totality/positions are outside (a symbolic token stream/AST is out of reach). sync.Pool modelled as 'Get returns the last Put object, else New()'; unicode/utf8.DecodeRune runs from source. Two known findings (unterminated block comment content in no token; column drift after an empty string token), three defects fixed. A token limit that only triggers after > 500 000 tokens (seeded change C37-token-limit-checks-capacity) is beyond every bound.",
    design="3 C37"),
  "C44": dict(
    text="Storage codec kernel: for every scalar storable value - the 14 fixed-width integer/Word/fixed-point kinds, Fix128/UFix128, Bool, Address, Nil (full width), Int/UInt (|x|<2^128), Int128/UInt128/Word128 (256-bit kinds in thorough), ASCII strings <=3 bytes, paths with identifiers <=2 bytes, Some / Some(Some) of an Int16, type values over primitive and optional static types, ID capabilities (symbolic id, address, borrow type) - the real Storable.Encode (through atree.Encoder and fxamacker/cbor's stream encoder executed from source) followed by the real interpreter.DecodeStorable yields a storable of the same kind and content, and re-encoding the decoded storable gives identical bytes; every primitive static type number and optional / variable- and constant-sized array / dictionary / reference / capability static types over symbolic primitive element types round-trip through StaticTypeToBytes / StaticTypeFromBytes to an equal type with identical re-encoding.",
